@@ -222,6 +222,14 @@ class Histories(BFSFamily):
         # the same object is serialised in every state it passes through (also before the first insertion)
         if f.serialize() != wire_of(model):
             raise Viol('serialisation of a filter that just arrived from the wire', wire_of(model), f.serialize())
+        def query_all(when):
+            # every element is queried in every state the object passes through (also right before it is inserted)
+            for i, e in enumerate(ELEMS):
+                le, raw = lib_elem(e)
+                wantc = R.bits_for(raw, nb, nh, tw) <= model
+                if bool(f.contains(le)) != wantc:
+                    raise Viol('contains(element %d) %s differs from the schedule-defined answer (history %r)' % (i, when, list(history)), wantc, not wantc)
+        query_all('on the filter as it arrived')
         for ev in history[1:]:
             if ev[0] == 'ins':
                 le, raw = lib_elem(ELEMS[ev[1]])
@@ -247,6 +255,7 @@ class Histories(BFSFamily):
             for i in inserted:
                 if not f.contains(lib_elem(ELEMS[i])[0]):
                     raise Viol('inserted element %d reported absent (false negative)' % i, True, False)
+            query_all('after %r' % (ev,))
             enc = f.serialize()
             if enc != wire_of(model):
                 raise Viol('serialisation after %r is not the wire form of the union of the schedule bits (same object serialised in every earlier state)' % (list(history),), wire_of(model), enc)
